@@ -440,7 +440,7 @@ def run(tier, seed):
            "classifier_controls_ok": len(known), "negative_controls_rejected": nneg + neg_num_rej,
            "structural_negative_controls": nneg, "numeric_negative_controls": neg_num_rej, "tolerance": TOL, "ring_level_M": M, "timing": timing,
            "exhaustive_part": "every one-qubit unitary reachable by a word over {H,S,T} of length <= %d; all words up to length 2 over the "
-                              "17-gate two-wire alphabet" % (8 if tier == "quick" else 10)}
+                              "18-gate two-wire alphabet" % (8 if tier == "quick" else 10)}
     return CheckResult(coverage=cov, violations=viol, assumptions=[
         "partial: inputs are the (dense) Clifford+T(+controlled) subgroup, exact in D[omega]; Haar-random, near-singular and near-class-boundary "
         "unitaries are outside the exact domain",
